@@ -343,6 +343,22 @@ func (db *SpecDB) LoadFile(path, pkgPath, prefix string) {
 					lc.PreservesOld = true
 					continue
 				}
+				if len(f) >= 2 && f[1] == "no-break" {
+					// loop N no-break : the loop is left only through its header condition or by returning (no break / goto out of
+					// the body): together with a range invariant this says that every element is visited
+					n, err := strconv.Atoi(f[0])
+					if err != nil {
+						db.errf(path, rl.line, "bad loop ordinal")
+						continue
+					}
+					lc := cur.Loops[n]
+					if lc == nil {
+						lc = &LoopContract{Ordinal: n}
+						cur.Loops[n] = lc
+					}
+					lc.NoBreak = true
+					continue
+				}
 				if len(f) >= 3 && f[1] == "body-assert" {
 					n, err := strconv.Atoi(f[0])
 					if err != nil {
